@@ -34,7 +34,7 @@ fn storage_10_5(v10: i32, v5: i32, ack: Option<i32>) -> Storage {
     st.snaps = VecDeque::with_capacity(4);
     st.snaps.push_front(StoredSnap { snap: one_item_snap(v5), tick: 5 });
     st.snaps.push_front(StoredSnap { snap: one_item_snap(v10), tick: 10 });
-    st.free = Vec::with_capacity(4);
+    st.free = Default::default();
     st.ack_tick = ack;
     st
 }
@@ -101,7 +101,9 @@ fn receiver_step<const DELTA_TICK: i32, const TICK: i32>() {
         }
         Err(e) => {
             // the acknowledged tick does not advance to this tick
-            assert!(st.ack_tick() != Some(TICK));
+            // the acknowledged tick does not *advance* to this tick (a duplicate of the tick that is
+            // already acknowledged leaves it where it was)
+            assert!(st.ack_tick() != Some(TICK) || old_ack == Some(TICK));
             assert!(st.ack_tick().is_none() || st.ack_tick() == old_ack);
             match e {
                 Error::OldDelta => assert!(TICK <= 10),
